@@ -9,6 +9,7 @@ import (
 	"fmt"
 	"sort"
 	"strings"
+	"sync"
 	"text/template"
 
 	"wa-lang.org/wa/internal/backends/compiler_wat/wir"
@@ -32,7 +33,13 @@ func New() *Compiler {
 	return new(Compiler)
 }
 
+// wir 包通过包级变量 currentModule 访问当前模块, 因此同一时刻只能有一个编译过程
+var compileMu sync.Mutex
+
 func (p *Compiler) Compile(prog *loader.Program) (output string, err error) {
+	compileMu.Lock()
+	defer compileMu.Unlock()
+
 	p.prog = prog
 
 	// 不同平台 stack 大小不同
